@@ -940,7 +940,7 @@ func genStream(r *Rand, g GenCfg) Plan {
 		p.API = Pick(r, tokenAPIs())
 		p.Typed = r.Chance(0.5)
 		p.Tokens = []TokSpec{genTokSpec(r, len(p.Cast), "t0", true)}
-		if r.Chance(0.08) {
+		if r.Chance(0.2) {
 			// a token with a large value: single writes / reads beyond the usual buffer sizes
 			big := MetaSpec{Key: "blob", V: ptr(vBytes(r.Bytes(Pick(r, []int{4097, 6000, 9000}))))}
 			if p.Tokens[0].Kind == "dlg" {
